@@ -235,6 +235,8 @@ package rtmp
 //@   let before = stream.msg.buff.wpos - stream.msg.buff.rpos - int(neededSize)
 //@   assert after "stream.msg.Flush(neededSize)" [C08.rd.needed] int: 0 <= before && before <= int(stream.header.MsgLen) ==> int(neededSize) == (int(stream.header.MsgLen) - before <= int(c.peerChunkSize) ? int(stream.header.MsgLen) - before : int(c.peerChunkSize))
 //@   assert after "stream.header.Csid = csid" [C08.rd.setchunksize] stream.header.MsgTypeId == 1 && stream.msg.buff.wpos - stream.msg.buff.rpos >= 4 ==> c.peerChunkSize == be32(stream.msg.buff.core, stream.msg.buff.rpos)
+//@   assert after "aggregateStream.header.TimestampAbs = ..." [C08.rd.aggregate.type] thorough slow: aggregateStream != stream && stream.msg.buff.rpos >= 11 ==> aggregateStream.header.MsgTypeId == stream.msg.buff.core[stream.msg.buff.rpos-11]
+//@   assert after "aggregateStream.header.TimestampAbs = ..." [C08.rd.aggregate.ts] thorough slow: aggregateStream != stream && stream.msg.buff.rpos >= 11 ==> aggregateStream.timestamp == uint32(stream.msg.buff.core[stream.msg.buff.rpos-4])<<24 | uint32(stream.msg.buff.core[stream.msg.buff.rpos-7])<<16 | uint32(stream.msg.buff.core[stream.msg.buff.rpos-6])<<8 | uint32(stream.msg.buff.core[stream.msg.buff.rpos-5])
 //@   assert after "stream.msg.Skip(aggregateStream.header.MsgLen)" [C08.rd.aggregate] int: aggregateStream != stream ==> aggregateStream.msg.buff.wpos - aggregateStream.msg.buff.rpos == int(aggregateStream.header.MsgLen)
 //@ end
 
